@@ -399,7 +399,9 @@ class Array(metaclass=MetaArray):
                 for idx in iter_index(shape, order):
                     extra[idx] = cls._itemtype._inspect_args(value[idx])
                     offsets[idx] = offset
-                    offset += extra[idx].size
+                    # every item starts on a slot (sizes of strings created
+                    # from a capacity are not multiples of 8)
+                    offset += _to_slot_size(extra[idx].size)
                 size = _to_slot_size(offset)
                 info.offsets = offsets
                 info.extra = extra
